@@ -178,7 +178,8 @@ def c03_configs(tier):
     return [
         dict(name="layout", leaf=["int8", "int32", "int64", "struct{}"], emb=["val", "ptr"], names="pos", maxfields=3, maxdepth=3,
              maxtotal=6, boundary=True, modulus=50),
-        dict(name="palette", leaf=["bool", "int16", "string", "[0]int64", "[3]int8", "[]byte", "any", "*int", "float64", "float32", "complex128", "fmt.Stringer"], emb=["val"], names="uniq",
+        dict(name="palette", leaf=["bool", "int16", "string", "[0]int64", "[3]int8", "[]byte", "any", "*int", "float64", "float32", "complex128", "fmt.Stringer",
+                                   "map[string]int", "map[int]int", "<-chan int", "opticsdrv.Label"], emb=["val"], names="uniq",
              maxfields=3, maxdepth=2, maxtotal=4, modulus=25),
         dict(name="names", leaf=["int8", "int16"], emb=["val", "ptr"], names="pool", tags="none", maxfields=3, maxdepth=3,
              maxtotal=4, modulus=8),
@@ -288,7 +289,9 @@ def collect(run, pkg, p, recs, byid, stats, libword):
             if kinds[r["kind"]] > 3:      # three replayable witnesses per kind are enough; the rest is counted
                 continue
             q = r.get("req")
-            if q:
+            if q and q.get("by") == "entry":
+                how = "%s[%s, %s](hseq.New[T]()[%d])" % ("NewReflector" if r.get("api") == "spectrum" else "NewLens", q["cont"], q["types"][0], q["ent"] - 1)
+            elif q:
                 how = "%s%d[%s](%s)" % ({"product": "ForProduct", "spectrum": "ForSpectrum", "shape": "ForShape", "bimap": "BiMapX/ForProduct"}.get(r.get("api"), "ForProduct"), len(q["types"]),
                                         ", ".join([q["cont"]] + q["types"]), ", ".join('"%s"' % n for n in q["names"]))
             elif r.get("optic"):
